@@ -50,6 +50,10 @@ pub fn replay(path: &Path) -> i32 {
             };
             let mut g = build(&spec);
             let info: Info<u64> = Info::new(&spec, &g);
+            if let Some(p) = &cfg.pre {
+                let r0 = run_on(&mut g, p, vec![]);
+                println!("earlier run on the same graph: {:?} -> {:?}", r0.ev, r0.status);
+            }
             let r = run_on(&mut g, &cfg, choices.clone());
             if r.diverged {
                 eprintln!("replay diverged: the recorded choice list does not fit the current code's menus");
@@ -67,8 +71,12 @@ pub fn replay(path: &Path) -> i32 {
                     return 2;
                 }
             };
-            let g = build(&spec);
+            let mut g = build(&spec);
             let info: Info<u64> = Info::new(&spec, &g);
+            if let Some(p) = &cfg.pre {
+                let r0 = run_on(&mut g, p, vec![]);
+                println!("earlier run on the same graph: {:?} -> {:?}", r0.ev, r0.status);
+            }
             let r = run_c(&g, &cfg, choices.clone());
             println!("choices: {:?}", r.taken.iter().map(|t| format!("{}/{}", t.c, t.k)).collect::<Vec<_>>());
             println!("trace:   {:?}", r.ev);
